@@ -64,11 +64,21 @@ func (p *c02Pending) wait(d time.Duration) bool {
 
 // c02ScFast: one non-blocking handler on a route whose timeout cannot fire.
 func c02ScFast(c *c02Ctx, e *c02Env, do c02Doer, rt *c02Route, sc *c02Script, class string) bool {
+	c02TaintFor(rt, sc)
 	run := e.newRun(rt, sc)
 	defer e.forget(run)
 	resp, _ := do(run, c02ReqOpt{})
-	ok := c02JudgeFast(c, run, resp, class)
 	mo := sc.model(run.id, len(sc.Steps))
+	if mo.status < 500 && rt.Class != "spare" && c02IsBareReject(run, resp) && atomic.LoadInt64(&rt.fails) > 0 {
+		// possibly the route's breaker: repeat the check on a spare route whose breaker cannot be open
+		c.m.Count("breaker_rejection_tolerated", 1)
+		c.m.Count("breaker_rejection_retried_on_spare", 1)
+		sp := e.routes["spare"][int(atomic.AddInt64(&e.nextID, 1))%len(e.routes["spare"])]
+		sp.spareMu.Lock()
+		defer sp.spareMu.Unlock()
+		return c02ScFast(c, e, do, sp, sc, class)
+	}
+	ok := c02JudgeFast(c, run, resp, class)
 	c.m.Case(fmt.Sprintf("%s|%s|st=%d|h=%d|w=%d|big=%v", c.obs, class, mo.status, len(mo.headers), mo.writes, len(mo.body) > 4096), ok)
 	if ok && mo.writes > 1 && len(mo.headers) > 0 && class == "fast" && c.obs == "server" {
 		c.sampleOnce(class, map[string]any{"route": rt.Path, "script": sc, "client_saw": resp.String()})
@@ -80,6 +90,7 @@ func c02ScFast(c *c02Ctx, e *c02Env, do c02Doer, rt *c02Route, sc *c02Script, cl
 // writes refused; the client's view does not change afterwards.
 func c02ScLate(c *c02Ctx, e *c02Env, do c02Doer, rt *c02Route, sc *c02Script) (ok bool, resp *c02Resp) {
 	class := sc.Kind // late | latepanic
+	c02Taint(rt)
 	run := e.newRun(rt, sc)
 	defer e.forget(run)
 	defer run.release()
@@ -227,6 +238,7 @@ func c02ScCancel(c *c02Ctx, e *c02Env, do c02Doer, rt *c02Route, sc *c02Script) 
 // route must answer the next request.
 func c02ScPanic(c *c02Ctx, e *c02Env, do c02Doer, rt *c02Route, sc *c02Script, r *rand.Rand) bool {
 	class := sc.Kind // panic | panic-committed
+	c02Taint(rt)
 	run := e.newRun(rt, sc)
 	defer e.forget(run)
 	p := c02Go(do, run, c02ReqOpt{})
@@ -280,25 +292,22 @@ func c02ScPanic(c *c02Ctx, e *c02Env, do c02Doer, rt *c02Route, sc *c02Script, r
 	return true
 }
 
-// c02PanicAlphabetRoutes: routes needed by c02ScPanicAlphabet so that no route's
-// breaker sees more than 4 answers >= 500.
-var c02PanicAlphabetRoutes = (2*len(c02PanicKinds)+3)/4 + 1
+// c02PanicAlphabetRoutes: routes needed by c02ScPanicAlphabet so that no route
+// sees more than 4 panics (on a route without timeout handler the breaker counts
+// a committed panic as a failure too).
+var c02PanicAlphabetRoutes = (3*len(c02PanicKinds) + 3) / 4
 
 // c02ScPanicAlphabet: every panic value kind x {first thing, after headers only,
-// after a commit}. The uncommitted ones (500) are spread over routes[:n-1], four
-// per route; the committed ones go to the last route.
+// after a commit}, four scenarios per route.
 func c02ScPanicAlphabet(c *c02Ctx, e *c02Env, do c02Doer, routes []*c02Route, r *rand.Rand) bool {
-	fail := 0
+	i := 0
 	for _, kind := range c02PanicKinds {
-		for _, mode := range []string{"first", "hdrs"} {
-			rt := routes[(fail/4)%(len(routes)-1)]
-			fail++
-			if !c02ScPanic(c, e, do, rt, c02GenPanicAt(r, mode, kind), r) {
+		for _, mode := range []string{"first", "hdrs", "committed"} {
+			rt := routes[(i/4)%len(routes)]
+			i++
+			if !c02ScPanic(c, e, do, rt, c02GenPanicAt(r, mode, kind), r) && c.m.ViolCount() > 0 {
 				return false
 			}
-		}
-		if !c02ScPanic(c, e, do, routes[len(routes)-1], c02GenPanicAt(r, "committed", kind), r) {
-			return false
 		}
 	}
 	return true
@@ -306,6 +315,7 @@ func c02ScPanicAlphabet(c *c02Ctx, e *c02Env, do c02Doer, routes []*c02Route, r 
 
 // c02ScRacing: handler writes straddle the deadline.
 func c02ScRacing(c *c02Ctx, e *c02Env, do c02Doer, rt *c02Route, sc *c02Script) bool {
+	c02Taint(rt)
 	run := e.newRun(rt, sc)
 	defer e.forget(run)
 	p := c02Go(do, run, c02ReqOpt{})
